@@ -9,6 +9,7 @@ from ..cfg import (CFG, explicit_raise_only, forward, forward_worlds,
                    _walk_no_nested, path_str)
 from ..lanes import (Facts, LaneInterp, LaneAlg, BV, Seg, Lin, ones, INF)
 from ..seq import cond_edge_transfer, kill_conds_on_assign
+from .. import pred
 
 FR = "dali.frame"
 W_ = Lin({"hi": 1, "lo": -1}, 1)         # hi + 1 - lo
@@ -43,13 +44,15 @@ def check(run, repo, world):
                         "int.bit_length() > n  <=>  value >= 2^n"]
     mod = repo.mod(FR)
     c = world.cls(FR + ".Frame")
+    run.rule("R-FRAME-VIEW", "views read only _data/_bits and are the "
+             "big-endian encodings of the same number; equality = same "
+             "width and bits")
     _own(run, repo, world, mod, c)
     _readslice(run, mod, c)
     _getitem(run, mod, c)
     _setitem(run, mod, c)
     _init(run, mod, c)
     _add_contains_views(run, world, mod, c)
-    _exc_table(run, mod, c)
 
 
 # ---------------------------------------------------------------------------
@@ -95,33 +98,193 @@ def _own(run, repo, world, mod, c):
     run.floor("Frame state store sites", n, 5)
 
 
+# ---------------------------------------------------------------------------
+# guards: `if T: raise E` statements as formulas (pred.py)
+def _exc_name(r):
+    e = r.exc
+    if e is None:
+        return None
+    if isinstance(e, ast.Call):
+        e = e.func
+    if isinstance(e, ast.Name):
+        # module-level exception objects: _bad_frame_length etc. not used here
+        return e.id
+    return unparse(e)
+
+
+def _guards(stmts):
+    """[(test ast, exception name, stmt)] for the `if T: raise E` statements
+    of a statement list, in order; a top-level `or` is split into one guard
+    per operand; `elif` chains of raising guards are followed."""
+    out = []
+
+    def add(test, exc, st):
+        if isinstance(test, ast.BoolOp) and isinstance(test.op, ast.Or):
+            for v in test.values:
+                add(v, exc, st)
+        else:
+            out.append((test, exc, st))
+    for st in stmts:
+        cur = st
+        while isinstance(cur, ast.If) and cur.body and isinstance(
+                cur.body[-1], ast.Raise) and len(cur.body) == 1:
+            add(cur.test, _exc_name(cur.body[0]), cur)
+            if len(cur.orelse) == 1 and isinstance(cur.orelse[0], ast.If):
+                cur = cur.orelse[0]
+            else:
+                break
+    return out
+
+
+def _canon_prop(e):
+    """Canonical text of the opaque propositions the guards use."""
+    t = unparse(e, 200).replace("len(self)", "self._bits")
+    if isinstance(e, ast.Call) and unparse(e.func) == "isinstance" and \
+            len(e.args) == 2:
+        return "isinstance(%s, %s)" % (unparse(e.args[0], 200).replace(
+            "len(self)", "self._bits"), unparse(e.args[1]))
+    return t
+
+
+def _check_guard_table(run, Q, guards, cases, parser, hyp, mod, node,
+                       what="input", extra=None):
+    """guards: [(test, exc, stmt)], cases: [(name, expected DNF, exception)].
+    (i) the union of the guards rejects exactly the union of the cases;
+    (ii) a guard raising E fires only where a case of class E applies.
+    `extra`: [(dnf, exc, stmt)] guards already classified elsewhere."""
+    gd = []
+    for (t, exc, st) in guards:
+        gd.append((parser.dnf(t), exc, st))
+    gd += extra or []
+    vocab = set()
+    for (_, d, _) in cases:
+        for c in d:
+            vocab |= {a[1] for a in c if a[0] == "p"}
+    for (d, exc, st) in gd:
+        for c in d:
+            for a in c:
+                if a[0] == "p" and a[1] not in vocab and not (
+                        a[1].endswith(" == key.step") or
+                        a[1].startswith("key.step == ")):
+                    raise AnalysisError(
+                        "%s: guard `%s` uses a test outside the recognised "
+                        "vocabulary (%s)" % (Q, unparse(st.test, 100), a[1]))
+    allg = pred.union(*[d for (d, _, _) in gd]) if gd else frozenset()
+    allc = pred.union(*[d for (_, d, _) in cases])
+    ok, w = pred.equivalent(allg, allc, hyp)
+    run.ob("R-FRAME-LANES", Q + "#rejects-exactly", ok,
+           "the guards reject `%s` but the documented illegal %ss are `%s`: "
+           "%s `%s`" % (pred.show(allg), what, pred.show(allc),
+                        w[0] if w else "", pred.show(w[1]) if w else ""),
+           where(mod, node),
+           sample={"rule": "R-FRAME-LANES", "guards": pred.show(allg),
+                   "documented": pred.show(allc)})
+    for (name, d, exc) in cases:
+        mine = pred.union(*[g for (g, e, _) in gd if e == exc]) \
+            if any(e == exc for (_, e, _) in gd) else frozenset()
+        others = pred.union(*[x for (n2, x, e2) in cases if e2 != exc]) \
+            if any(e2 != exc for (_, _, e2) in cases) else frozenset()
+        ok, w = pred.implies(d, pred.union(mine, others), hyp)
+        run.ob("R-FRAME-EXC", "%s#%s" % (Q, name), ok,
+               "%s: case `%s` must raise %s; not covered by a guard raising "
+               "it when %s" % (Q, name, exc, pred.show(w) if w else ""),
+               where(mod, node),
+               sample={"rule": "R-FRAME-EXC", "case": name, "raises": exc}
+               if name in ("value negative", "beyond width") else None)
+    for (d, exc, st) in gd:
+        mine = pred.union(*[x for (_, x, e2) in cases if e2 == exc]) \
+            if any(e2 == exc for (_, _, e2) in cases) else frozenset()
+        ok, w = pred.implies(d, mine, hyp)
+        run.ob("R-FRAME-EXC", "%s#guard:%s" % (Q, pred.show(d)), ok,
+               "guard `%s` raises %s although no %s-class fault is present "
+               "when %s" % (unparse(st.test, 100), exc, exc,
+                            pred.show(w) if w else ""), where(mod, st),
+               trivial=True)
+
+
+def _spec():
+    return json.load(open(os.path.join(VERIF, "spec",
+                                       "frame_exceptions.json")))
+
+
 def _readslice(run, mod, c):
-    run.rule("R-FRAME-LANES", "")
+    run.rule("R-FRAME-LANES", "slice/bit arithmetic reads and writes exactly "
+             "the stated lanes for every width; guards reject exactly the "
+             "illegal inputs (formula equivalence)")
+    run.rule("R-FRAME-EXC", "each illegal input raises the documented "
+             "exception class (spec/frame_exceptions.json)")
     fn = c.methods["_readslice"][1]
-    t = ast.unparse(fn)
-    asg = {unparse(n.targets[0]): unparse(n.value) for n in ast.walk(fn)
-           if isinstance(n, ast.Assign)}
-    rets = [unparse(n.value) for n in ast.walk(fn) if isinstance(
-        n, ast.Return)]
-    tests = {}
+    Q = FR + ".Frame._readslice"
+    spec = _spec()["_readslice"]
+    # hi / lo definitions
+    asg = {}
     for n in ast.walk(fn):
-        if isinstance(n, ast.If):
-            exc = [unparse(s.exc.func) for s in n.body if isinstance(
-                s, ast.Raise) and isinstance(s.exc, ast.Call)]
-            tests[unparse(n.test)] = exc[0] if exc else None
-    ok = asg.get("hi") == "max(key.start, key.stop)" and asg.get("lo") == \
-        "min(key.start, key.stop)" and rets == ["(hi, lo)"] and tests.get(
-            "hi < 0 or lo < 0") == "IndexError" and tests.get(
-            "hi >= self._bits or lo >= self._bits") == "IndexError" and \
-        tests.get("not isinstance(key.start, int) or not isinstance("
-                  "key.stop, int)") == "TypeError" and tests.get(
-            "key.step not in (None, 1)") == "TypeError"
-    run.ob("R-FRAME-LANES", FR + ".Frame._readslice#establishes-order", ok,
-           "_readslice must return (max, min) of the integer indices and "
-           "raise unless 0 <= lo <= hi <= bits-1 (either index order "
-           "accepted, no step): tests %s" % tests, where(mod, fn),
-           sample={"rule": "R-FRAME-LANES", "facts": "0<=lo<=hi<=bits-1",
-                   "tests": tests})
+        if isinstance(n, ast.Assign) and len(n.targets) == 1:
+            tg = n.targets[0]
+            if isinstance(tg, ast.Name):
+                asg[tg.id] = n.value
+            elif isinstance(tg, ast.Tuple) and isinstance(
+                    n.value, ast.Tuple) and len(tg.elts) == len(
+                        n.value.elts):
+                for a, b in zip(tg.elts, n.value.elts):
+                    if isinstance(a, ast.Name):
+                        asg[a.id] = b
+    rets = [n.value for n in ast.walk(fn) if isinstance(n, ast.Return)]
+
+    def is_ext(e, which):
+        return isinstance(e, ast.Call) and unparse(e.func) == which and \
+            sorted(unparse(a) for a in e.args) == ["key.start", "key.stop"]
+    order_ok = False
+    if len(rets) == 1 and isinstance(rets[0], ast.Tuple) and len(
+            rets[0].elts) == 2:
+        a, b = rets[0].elts
+
+        def res(x):
+            return asg.get(x.id, x) if isinstance(x, ast.Name) else x
+        order_ok = is_ext(res(a), "max") and is_ext(res(b), "min")
+    if not order_ok and not (len(rets) == 1 and isinstance(
+            rets[0], ast.Tuple)):
+        raise AnalysisError("%s: return form not recognised" % Q)
+    run.ob("R-FRAME-LANES", Q + "#establishes-order", order_ok,
+           "_readslice must return (max, min) of key.start / key.stop so "
+           "that [hi:lo] and [lo:hi] address the same lanes; returns %s"
+           % [unparse(r) for r in rets], where(mod, fn))
+    hi_name = unparse(rets[0].elts[0]) if isinstance(
+        rets[0].elts[0], ast.Name) else None
+    lo_name = unparse(rets[0].elts[1]) if isinstance(
+        rets[0].elts[1], ast.Name) else None
+    guards = _guards(fn.body)
+    run.floor("_readslice guards", len(guards), 4)
+    # both index orders: key.start is the larger one / the smaller one
+    for order in ("start>=stop", "stop>=start"):
+        sm = {"self._bits": "bits", "len(self)": "bits"}
+        big, small = ("key.start", "key.stop") if order == "start>=stop" \
+            else ("key.stop", "key.start")
+        sm[big] = "hi"
+        sm[small] = "lo"
+        if hi_name:
+            sm[hi_name] = "hi"
+        if lo_name:
+            sm[lo_name] = "lo"
+        sm["max(key.start, key.stop)"] = sm["max(key.stop, key.start)"] = "hi"
+        sm["min(key.start, key.stop)"] = sm["min(key.stop, key.start)"] = "lo"
+        P = pred.Parser(pred.lin_of(sm), _canon_prop)
+        hyp = [("le", "lo", "hi", 0), ("le", pred.ZERO, "bits", 1)]
+        A = pred.Parser(pred.lin_of({"lo": "lo", "hi": "hi",
+                                     "bits": "bits"}), _canon_prop)
+
+        def f(src):
+            return A.dnf(ast.parse(src, mode="eval").body)
+        cases = [
+            ("indices not int", f("not isinstance(key.start, int) or "
+                                  "not isinstance(key.stop, int)"),
+             spec["indices not int"]),
+            ("step", f("key.step != None and key.step != 1"), spec["step"]),
+            ("negative", f("lo < 0"), spec["negative"]),
+            ("beyond width", f("hi >= bits"), spec["beyond width"]),
+        ]
+        _check_guard_table(run, Q + "[" + order + "]", guards, cases, P,
+                           hyp, mod, fn, what="slice")
 
 
 def _branch(fn, kind):
@@ -134,15 +297,46 @@ def _branch(fn, kind):
                         % (fn.name, kind))
 
 
+def _fallthrough_typeerror(fn):
+    """The path taken when key is neither a slice nor an int ends in
+    `raise TypeError`."""
+    last = fn.body[-1]
+    while isinstance(last, ast.If):
+        if not last.orelse:
+            return False
+        last = last.orelse[-1]
+    return isinstance(last, ast.Raise) and _exc_name(last) == "TypeError"
+
+
+def _key_parser():
+    return pred.Parser(pred.lin_of({"key": "key", "self._bits": "bits",
+                                    "len(self)": "bits"}), _canon_prop)
+
+
+def _key_cases(spec):
+    A = pred.Parser(pred.lin_of({"key": "key", "bits": "bits"}))
+    d = A.dnf(ast.parse("key < 0 or key >= bits", mode="eval").body)
+    return [("int out of range", d, spec["int out of range"])]
+
+
+def _reads_slice_result(sl):
+    for s in sl.body:
+        if isinstance(s, ast.Assign) and "self._readslice(key)" == unparse(
+                s.value) and isinstance(s.targets[0], ast.Tuple) and [
+                    unparse(x) for x in s.targets[0].elts] == ["hi", "lo"]:
+            return True
+    raise AnalysisError("slice branch no longer starts from `hi, lo = "
+                        "self._readslice(key)`")
+
+
 def _getitem(run, mod, c):
     fn = c.methods["__getitem__"][1]
     Q = FR + ".Frame.__getitem__"
+    spec = _spec()["__getitem__"]
     sl = _branch(fn, "slice")
-    # hi, lo = self._readslice(key)
-    okr = any(unparse(s) == "(hi, lo) = self._readslice(key)" or unparse(
-        s) == "hi, lo = self._readslice(key)" for s in sl.body)
+    _reads_slice_result(sl)
     env = {"self._data": BV([Seg(Lin.const(0), BITS, "data", Lin.const(0))])}
-    syms = {"lo": LO, "hi": HI, "self._bits": BITS}
+    syms = {"lo": LO, "hi": HI, "self._bits": BITS, "len(self)": BITS}
     facts = Facts("slice")
     li = LaneInterp(facts, dict(env), syms)
     ret = None
@@ -153,7 +347,7 @@ def _getitem(run, mod, c):
         if isinstance(s, ast.Return):
             ret = li.bv(s.value)
     want = BV([Seg(Lin.const(0), W_, "data", LO)])
-    ok = okr and ret is not None and li.alg.equal(ret, want)
+    ok = ret is not None and li.alg.equal(ret, want)
     run.ob("R-FRAME-LANES", Q + "#slice", ok,
            "reading [hi:lo] yields %r, expected exactly data lanes lo..hi "
            "at positions 0..hi-lo (%r)" % (ret, want), where(mod, sl),
@@ -161,23 +355,38 @@ def _getitem(run, mod, c):
                    "result_lanes": repr(ret)})
     ib = _branch(fn, "int")
     rets = [s for s in ib.body if isinstance(s, ast.Return)]
-    okb = False
-    got = None
-    if len(rets) == 1 and isinstance(rets[0].value, ast.Compare) and \
-            isinstance(rets[0].value.ops[0], ast.NotEq) and unparse(
-                rets[0].value.comparators[0]) == "0":
-        li2 = LaneInterp(Facts("bit"), {"self._data": BV([Seg(
-            Lin.const(0), BITS, "data", Lin.const(0))])},
-            {"key": KEY, "self._bits": BITS})
-        got = li2.bv(rets[0].value.left)
-        okb = li2.alg.equal(got, BV([Seg(KEY, KEY + 1, "data", KEY)]))
-    guard = any(isinstance(s, ast.If) and unparse(s.test) ==
-                "key < 0 or key >= self._bits" and any(
-                    isinstance(x, ast.Raise) and "IndexError" in unparse(x)
-                    for x in s.body) for s in ib.body)
-    run.ob("R-FRAME-LANES", Q + "#bit", okb and guard,
-           "reading bit `key` must test exactly data lane key (got %r) "
-           "after an IndexError range check" % got, where(mod, ib))
+    if len(rets) != 1:
+        raise AnalysisError("%s: int branch return form not recognised" % Q)
+    e = rets[0].value
+    # truth of an expression whose only possibly-set lane is data[key]
+    inner = None
+    if isinstance(e, ast.Compare) and len(e.ops) == 1 and unparse(
+            e.comparators[0]) == "0" and isinstance(
+                e.ops[0], (ast.NotEq, ast.Gt)):
+        inner = e.left
+    elif isinstance(e, ast.Call) and unparse(e.func) == "bool" and len(
+            e.args) == 1:
+        inner = e.args[0]
+    if inner is None:
+        raise AnalysisError("%s: `%s` is not a recognised bit test (x != 0, "
+                            "x > 0, bool(x))" % (Q, unparse(e)))
+    li2 = LaneInterp(Facts("bit"), {"self._data": BV([Seg(
+        Lin.const(0), BITS, "data", Lin.const(0))])},
+        {"key": KEY, "self._bits": BITS, "len(self)": BITS})
+    got = li2.alg.norm(li2.bv(inner))
+    okb = len(got.segs) == 1 and got.segs[0].src == "data" and \
+        Lin.__eq__(got.segs[0].off, KEY) and \
+        (got.segs[0].b - got.segs[0].a) == Lin.const(1)
+    run.ob("R-FRAME-LANES", Q + "#bit", okb,
+           "reading bit `key` must test exactly data lane key; tests %r"
+           % got, where(mod, ib))
+    _check_guard_table(run, Q + "[int]", _guards(ib.body), _key_cases(spec),
+                       _key_parser(), [("le", pred.ZERO, "bits", 1)], mod,
+                       ib, what="index")
+    run.ob("R-FRAME-EXC", Q + "#other key type", _fallthrough_typeerror(fn)
+           and spec["other key type"] == "TypeError",
+           "a key that is neither int nor slice must raise TypeError",
+           where(mod, fn))
 
 
 def _setitem(run, mod, c):
@@ -232,47 +441,38 @@ def _setitem(run, mod, c):
            "else (%r)" % (final, want), where(mod, sl),
            sample={"rule": "R-FRAME-LANES", "operation": "f[hi:lo] = value",
                    "result_lanes": repr(final)})
-    # ---- fit guards: which value lanes make a ValueError ---------------------
+    # ---- guards of the slice write ---------------------------------------------
+    spec = _spec()["__setitem__"]
     covered = []        # lane intervals [a, b) of value that are rejected
-    neg_guard = False
-    type_guard = False
-    unrec = []
-    guards_before_store = True
     store_line = min([s.lineno for s in sl.body if isinstance(
         s, ast.Assign) and unparse(s.targets[0]) == "self._data"] or [0])
-    for s in sl.body:
-        if not isinstance(s, ast.If):
-            continue
-        exc = [unparse(x.exc.func) for x in s.body if isinstance(
-            x, ast.Raise) and isinstance(x.exc, ast.Call)]
-        if not exc:
-            continue
-        if s.lineno > store_line:
+    plain = []
+    fit_exc = set()
+    guards_before_store = True
+    for (t, exc, st) in _guards(sl.body):
+        if st.lineno > store_line:
             guards_before_store = False
-        t = s.test
-        tt = unparse(t)
-        if tt == "not isinstance(value, int)" and exc[0] == "TypeError":
-            type_guard = True
-            continue
-        if tt in ("value < 0", "0 > value") and exc[0] == "ValueError":
-            neg_guard = True
-            continue
-        if "value" not in tt:
-            continue
-        iv = _rejected_lanes(t, li, facts)
-        if iv is None:
-            unrec.append(tt)
-        else:
+        iv = _rejected_lanes(t, li, facts) if "value" in unparse(t) else None
+        if iv is not None:
             covered += iv
-            if exc[0] != "ValueError":
-                run.ob("R-FRAME-EXC", Q + "#fit-exception", False,
-                       "an oversized value must raise ValueError, raises %s"
-                       % exc[0], where(mod, s))
-    if unrec:
-        raise AnalysisError(
-            "R-FRAME-LANES: fit test(s) %s in Frame.__setitem__ are outside "
-            "the recognised forms (value.bit_length() > n, value >> n, "
-            "value >= 1 << n, (value << k) & mask, value & mask)" % unrec)
+            fit_exc.add(exc)
+        else:
+            plain.append((t, exc, st))
+    A = pred.Parser(pred.lin_of({"value": "value"}), _canon_prop)
+
+    def f(src):
+        return A.dnf(ast.parse(src, mode="eval").body)
+    cases = [("value not int", f("not isinstance(value, int)"),
+              spec["value not int"]),
+             ("value negative", f("value < 0"), spec["value negative"])]
+    _check_guard_table(run, Q + "[slice]", plain, cases, A, [], mod, sl,
+                       what="value")
+    run.ob("R-FRAME-EXC", Q + "#value too big", fit_exc <= {
+        spec["value too big"]} and bool(fit_exc),
+        "an oversized value must raise %s, raises %s" % (
+            spec["value too big"], sorted(fit_exc)), where(mod, sl),
+        sample={"rule": "R-FRAME-EXC", "method": "__setitem__",
+                "case": "value too big", "raises": sorted(fit_exc)})
     alg = LaneAlg(facts)
     need = BV([Seg(W_, INF, "ones")])
     cov = BV([Seg(a, b, "ones") for (a, b) in covered])
@@ -280,14 +480,13 @@ def _setitem(run, mod, c):
     low = BV([Seg(Lin.const(0), W_, "ones")])
     too_much = not alg.disjoint(cov, low) if covered else False
     run.ob("R-FRAME-LANES", Q + "#fit-guard", not missing.segs and
-           not too_much and neg_guard and type_guard and guards_before_store,
+           not too_much and guards_before_store,
            "the guards before a slice write must reject exactly the values "
-           "with a set bit at or above W = hi+1-lo (plus negatives and "
-           "non-ints); value lanes %r are NOT rejected%s: such a value is "
-           "written into lanes at or above the frame's width and the frame's "
-           "value leaves 0 <= value < 2^width (neg-guard=%s type-guard=%s)"
-           % (missing, " and legal lanes are rejected" if too_much else "",
-              neg_guard, type_guard), where(mod, sl),
+           "with a set bit at or above W = hi+1-lo; value lanes %r are NOT "
+           "rejected%s: such a value is written into lanes at or above the "
+           "frame's width and the frame's value leaves 0 <= value < 2^width"
+           % (missing, " and legal lanes are rejected" if too_much else ""),
+           where(mod, sl),
            sample={"rule": "R-FRAME-LANES", "operation": "fit guard",
                    "rejected_value_lanes": repr(cov)})
     # ---- bit write --------------------------------------------------------------
@@ -311,10 +510,14 @@ def _setitem(run, mod, c):
                    Seg(KEY + 1, BITS, "data", KEY + 1)])
     want_clr = BV([Seg(Lin.const(0), KEY, "data", Lin.const(0)),
                    Seg(KEY + 1, BITS, "data", KEY + 1)])
-    guard = any(isinstance(s, ast.If) and unparse(s.test) ==
-                "key < 0 or key >= self._bits" and any(
-                    isinstance(x, ast.Raise) and "IndexError" in unparse(x)
-                    for x in s.body) for s in ib.body)
+    _check_guard_table(run, Q + "[int]", _guards(ib.body), _key_cases(spec),
+                       _key_parser(), [("le", pred.ZERO, "bits", 1)], mod,
+                       ib, what="index")
+    run.ob("R-FRAME-EXC", Q + "#other key type", _fallthrough_typeerror(fn)
+           and spec["other key type"] == "TypeError",
+           "a key that is neither int nor slice must raise TypeError",
+           where(mod, fn))
+    guard = True
     run.ob("R-FRAME-LANES", Q + "#bit-set", setv is not None and
            li2.alg.equal(setv, want_set) and guard,
            "setting bit key gives %r, expected %r" % (setv, want_set),
@@ -401,25 +604,65 @@ def _rejected_lanes(test, li, facts):
     return None
 
 
+def _fit_form(t, var, width_syms):
+    """Is test `t` one of the recognised spellings of `var >= 2**width`?"""
+    if isinstance(t, ast.Compare) and len(t.ops) == 1:
+        l, op, r = t.left, t.ops[0], t.comparators[0]
+        if unparse(l) == var + ".bit_length()" and isinstance(op, ast.Gt) \
+                and unparse(r) in width_syms:
+            return True
+        if unparse(l) == var and isinstance(op, ast.GtE) and unparse(r) in [
+                f % w for w in width_syms for f in ("1 << %s", "2 ** %s",
+                                                    "pow(2, %s)")]:
+            return True
+        if unparse(l) == var and isinstance(op, ast.Gt) and unparse(r) in [
+                f % w for w in width_syms for f in ("(1 << %s) - 1",
+                                                    "2 ** %s - 1")]:
+            return True
+        if isinstance(op, ast.NotEq) and unparse(r) == "0":
+            return _fit_form(l, var, width_syms)
+    if isinstance(t, ast.BinOp) and isinstance(t.op, ast.RShift) and \
+            unparse(t.left) == var and unparse(t.right) in width_syms:
+        return True
+    return False
+
+
 def _init(run, mod, c):
     fn = c.methods["__init__"][1]
     Q = FR + ".Frame.__init__"
-    tests = {}
+    spec = _spec()["__init__"]
+    sm = {"bits": "bits", "self._bits": "bits", "self._data": "data"}
+    P = pred.Parser(pred.lin_of(sm), _canon_prop)
+    plain, extra = [], []
+    for (t, exc, st) in _guards(fn.body):
+        if _fit_form(t, "self._data", ("bits", "self._bits")):
+            extra.append((frozenset([frozenset([("p", "nofit", True)])]),
+                          exc, st))
+        else:
+            plain.append((t, exc, st))
+    A = pred.Parser(pred.lin_of({"bits": "bits", "data": "data"}),
+                    _canon_prop)
+
+    def f(src):
+        return A.dnf(ast.parse(src, mode="eval").body)
+    cases = [("bits not int", f("not isinstance(bits, int)"),
+              spec["bits not int"]),
+             ("bits < 1", f("bits < 1"), spec["bits < 1"]),
+             ("data negative", f("data < 0"), spec["data negative"]),
+             ("data too big", frozenset([frozenset([("p", "nofit", True)])]),
+              spec["data too big"])]
+    run.floor("Frame.__init__ guards", len(plain) + len(extra), 4)
+    _check_guard_table(run, Q, plain, cases, P, [], mod, fn,
+                       what="argument", extra=extra)
+    conv = False
     for n in ast.walk(fn):
-        if isinstance(n, ast.If):
-            exc = [unparse(s.exc.func) for s in n.body if isinstance(
-                s, ast.Raise) and isinstance(s.exc, ast.Call)]
-            if exc:
-                tests[unparse(n.test)] = exc[0]
-    ok = tests.get("not isinstance(bits, int)") == "TypeError" and \
-        tests.get("bits < 1") == "ValueError" and \
-        tests.get("self._data < 0") == "ValueError" and \
-        tests.get("self._data.bit_length() > bits") == "ValueError"
-    conv = "self._data = int.from_bytes(data, 'big')" in ast.unparse(fn)
-    run.ob("R-FRAME-LANES", Q + "#invariant-established", ok and conv,
-           "construction must establish 1 <= bits and 0 <= data < 2^bits "
-           "(big-endian for byte sequences): guards %s" % tests,
-           where(mod, fn))
+        if isinstance(n, ast.Call) and unparse(n.func) == "int.from_bytes":
+            order = [unparse(a) for a in n.args[1:2]] + [
+                unparse(k.value) for k in n.keywords if k.arg == "byteorder"]
+            conv = order == ["'big'"]
+    run.ob("R-FRAME-VIEW", Q + "#byte-sequence-big-endian", conv,
+           "a byte sequence given as initial data is read big-endian "
+           "(int.from_bytes(data, 'big'))", where(mod, fn))
     # subclasses that override __init__ go through it
     for k in c.world.class_order:
         if c in k.mro and k is not c and "__init__" in k.methods:
@@ -428,6 +671,32 @@ def _init(run, mod, c):
                    any("super().__init__(" in unparse(s) for s in f2.body),
                    "Frame subclass constructor bypasses the validating base "
                    "constructor", where(mod, f2), trivial=True)
+
+
+def _returns(fn):
+    return [n.value for n in ast.walk(fn) if isinstance(n, ast.Return)
+            and n.value is not None]
+
+
+def _data_identity(li, e):
+    """Does integer expression e denote exactly the frame's value?"""
+    t = unparse(e)
+    if t in ("self.as_integer", "int(self._data)"):
+        return True
+    return li.alg.equal(li.bv(e), BV([Seg(Lin.const(0), BITS, "data",
+                                           Lin.const(0))]))
+
+
+def _to_bytes_call(e):
+    """(receiver, length expr, byteorder text) of X.to_bytes(n, order)."""
+    if isinstance(e, ast.Call) and isinstance(e.func, ast.Attribute) and \
+            e.func.attr == "to_bytes":
+        args = list(e.args)
+        kw = {k.arg: k.value for k in e.keywords}
+        n = args[0] if args else kw.get("length")
+        o = args[1] if len(args) > 1 else kw.get("byteorder")
+        return e.func.value, n, (unparse(o) if o is not None else None)
+    return None
 
 
 def _add_contains_views(run, world, mod, c):
@@ -441,117 +710,177 @@ def _add_contains_views(run, world, mod, c):
         if isinstance(n, ast.Call) and unparse(n.func) == "Frame" and len(
                 n.args) == 2:
             call = n
-    ok = False
-    got = None
-    if call is not None:
-        A, B = Lin.sym("a"), Lin.sym("b")
-        li = LaneInterp(Facts("add"), {
-            "self._data": BV([Seg(Lin.const(0), A, "data", Lin.const(0))]),
-            "other._data": BV([Seg(Lin.const(0), B, "other", Lin.const(0))])},
-            {"self._bits": A, "other._bits": B})
-        width = li.lin(call.args[0])
-        got = li.bv(call.args[1])
-        want = BV([Seg(Lin.const(0), B, "other", Lin.const(0)),
-                   Seg(B, A + B, "data", Lin.const(0))])
-        ok = width == A + B and li.alg.equal(got, want)
+    if call is None:
+        raise AnalysisError("%s: no Frame(width, value) construction" % Q)
+    A, B = Lin.sym("a"), Lin.sym("b")
+    li = LaneInterp(Facts("add"), {
+        "self._data": BV([Seg(Lin.const(0), A, "data", Lin.const(0))]),
+        "other._data": BV([Seg(Lin.const(0), B, "other", Lin.const(0))])},
+        {"self._bits": A, "other._bits": B, "len(self)": A,
+         "len(other)": B})
+    width = li.lin(call.args[0])
+    got = li.bv(call.args[1])
+    want = BV([Seg(Lin.const(0), B, "other", Lin.const(0)),
+               Seg(B, A + B, "data", Lin.const(0))])
+    ok = width == A + B and li.alg.equal(got, want)
     run.ob("R-FRAME-LANES", Q, ok,
            "concatenation must give width a+b with the right operand on "
-           "lanes [0,b) and the left operand on [b,a+b); got %r" % got,
-           where(mod, fn),
+           "lanes [0,b) and the left operand on [b,a+b); got width %r lanes "
+           "%r" % (width, got), where(mod, fn),
            sample={"rule": "R-FRAME-LANES", "operation": "f + g",
                    "result_lanes": repr(got)})
-    hs = [unparse(h.type) for n in ast.walk(fn) if isinstance(n, ast.Try)
+    hs = [(unparse(h.type), [_exc_name(x) for x in ast.walk(h)
+                             if isinstance(x, ast.Raise)])
+          for n in ast.walk(fn) if isinstance(n, ast.Try)
           for h in n.handlers if h.type is not None]
-    run.ob("R-FRAME-EXC", Q + "#TypeError", "Exception" in hs and
-           "raise TypeError" in ast.unparse(fn),
-           "adding a non-frame must raise TypeError", where(mod, fn))
-    cf = c.methods["__contains__"][1]
-    t = ast.unparse(cf)
-    run.ob("R-FRAME-VIEW", FR + ".Frame.__contains__",
-           "if item is True:\n        return self._data != 0" in t and
-           "if item is False:\n        return self._data != (1 << self._bits)"
-           " - 1" in t and t.rstrip().endswith("return False"),
-           "True in f <=> some bit set; False in f <=> some bit clear",
-           where(mod, cf))
-    want = {
-        "as_integer": ["self._data"],
-        "as_byte_sequence": ["list(self.pack)"],
-        "pack": ["self._data.to_bytes(len(self) // 8 + (1 if len(self) % 8 "
-                 "else 0), 'big')"],
-        "pack_len": ["self._data.to_bytes(l, 'big')"],
-        "__len__": ["self._bits"],
-        "__eq__": ["self._bits == other._bits and self._data == other._data",
-                   "False"],
-        "__ne__": ["self._bits != other._bits or self._data != other._data",
-                   "True"],
-    }
-    for name, rets in want.items():
+    spec = _spec()
+    run.ob("R-FRAME-EXC", Q + "#not a frame", any(
+        t in ("Exception", "AttributeError", "(AttributeError, TypeError)")
+        and r == [spec["__add__"]["not a frame"]] for (t, r) in hs),
+        "adding a non-frame must raise TypeError", where(mod, fn))
+    # ---- views ------------------------------------------------------------
+    lw = LaneInterp(Facts("width"), {"self._data": BV([Seg(
+        Lin.const(0), BITS, "data", Lin.const(0))])},
+        {"self._bits": BITS, "len(self)": BITS})
+
+    def one_return(name):
         f2 = c.methods[name][1]
-        got = [unparse(n.value, 200) for n in ast.walk(f2) if isinstance(
-            n, ast.Return) and n.value is not None]
-        run.ob("R-FRAME-VIEW", "%s.Frame.%s" % (FR, name), got == rets,
-               "%s returns %s, expected %s" % (name, got, rets),
-               where(mod, f2))
+        r = _returns(f2)
+        if len(r) != 1:
+            raise AnalysisError("Frame.%s: expected a single return" % name)
+        return f2, r[0]
+    f2, r = one_return("as_integer")
+    run.ob("R-FRAME-VIEW", FR + ".Frame.as_integer", _data_identity(lw, r),
+           "as_integer returns `%s`, not the frame's value" % unparse(r),
+           where(mod, f2))
+    f2, r = one_return("__len__")
+    run.ob("R-FRAME-VIEW", FR + ".Frame.__len__", lw.lin(r) == BITS,
+           "len() returns `%s`, not the width" % unparse(r), where(mod, f2))
+
+    def check_pack(name, e, f2, fixed):
+        tb = _to_bytes_call(e)
+        if tb is None:
+            raise AnalysisError("Frame.%s: `%s` is not an int.to_bytes call"
+                                % (name, unparse(e)))
+        recv, n, order = tb
+        okv = _data_identity(lw, recv) and order == "'big'"
+        msg = "%s encodes `%s` with byte order %s" % (name, unparse(recv),
+                                                      order)
+        if fixed:
+            okn = unparse(n) == f2.args.args[1].arg
+        else:
+            okn = True
+            for r8 in range(8):
+                q = pred.residue_eval(n, ("len(self)", "self._bits"), 8, r8)
+                if q != pred.QLin(1, 1 if r8 else 0):
+                    okn = False
+                    msg += "; length `%s` is %r bytes for width 8q+%d, " \
+                        "expected q%s" % (unparse(n), q, r8,
+                                          "+1" if r8 else "")
+                    break
+        run.ob("R-FRAME-VIEW", "%s.Frame.%s" % (FR, name), okv and okn,
+               msg + " (must be the big-endian encoding of the value in "
+               "ceil(width/8) bytes)" if not fixed else msg,
+               where(mod, f2),
+               sample={"rule": "R-FRAME-VIEW", "view": name,
+                       "length": unparse(n), "order": order})
+    f2, r = one_return("pack")
+    check_pack("pack", r, f2, False)
+    f2, r = one_return("pack_len")
+    check_pack("pack_len", r, f2, True)
+    f2, r = one_return("as_byte_sequence")
+    src = None
+    if isinstance(r, ast.Call) and unparse(r.func) == "list" and len(
+            r.args) == 1:
+        src = r.args[0]
+    elif isinstance(r, ast.ListComp) and len(r.generators) == 1 and \
+            unparse(r.elt) == unparse(r.generators[0].target) and \
+            not r.generators[0].ifs:
+        src = r.generators[0].iter
+    if src is None:
+        raise AnalysisError("Frame.as_byte_sequence: `%s` is not list(...) "
+                            "over the packed bytes" % unparse(r))
+    if unparse(src) == "self.pack":
+        run.ob("R-FRAME-VIEW", FR + ".Frame.as_byte_sequence", True)
+    else:
+        check_pack("as_byte_sequence", src, f2, False)
+    # ---- equality ---------------------------------------------------------
+    def eq_prop(e):
+        t = unparse(e, 200)
+        for a, b in (("len(self)", "self._bits"), ("len(other)",
+                                                   "other._bits"),
+                     ("self.as_integer", "self._data"),
+                     ("other.as_integer", "other._data")):
+            t = t.replace(a, b)
+        return t
+    E = pred.Parser(lambda e: None, eq_prop)
+    want_eq = frozenset([frozenset([
+        ("p", "other._bits == self._bits", True),
+        ("p", "other._data == self._data", True)])])
+    eq_formula = {}
+    for name, const in (("__eq__", False), ("__ne__", True)):
+        f2 = c.methods[name][1]
+        rs = _returns(f2)
+        consts = [x for x in rs if isinstance(x, ast.Constant)]
+        main = [x for x in rs if not isinstance(x, ast.Constant)]
+        if len(main) != 1:
+            raise AnalysisError("Frame.%s: expected one comparison" % name)
+        m = main[0]
+        neg = False
+        if isinstance(m, ast.UnaryOp) and isinstance(m.op, ast.Not) and \
+                unparse(m.operand) in ("self == other",
+                                       "self.__eq__(other)"):
+            d = pred.neg_dnf(eq_formula["__eq__"])
+        else:
+            d = E.dnf(m)
+        eq_formula[name] = d
+        want = want_eq if name == "__eq__" else pred.neg_dnf(want_eq)
+        ok, w = pred.equivalent(d, want)
+        run.ob("R-FRAME-VIEW", "%s.Frame.%s" % (FR, name), ok and all(
+            x.value is const for x in consts),
+            "%s is `%s`; equality must mean same width and same bits (%s)"
+            % (name, unparse(m), pred.show(want)), where(mod, f2))
+    # ---- membership ---------------------------------------------------------
+    cf = c.methods["__contains__"][1]
+    got = {}
+    for n in ast.walk(cf):
+        if isinstance(n, ast.If) and isinstance(n.test, ast.Compare) and \
+                unparse(n.test.left) == "item" and isinstance(
+                    n.test.ops[0], ast.Is) and n.body and isinstance(
+                        n.body[0], ast.Return):
+            got[unparse(n.test.comparators[0])] = n.body[0].value
+
+    def nonzero_test(e):
+        """e is `X != K`; returns (X, K)."""
+        if isinstance(e, ast.Compare) and len(e.ops) == 1 and isinstance(
+                e.ops[0], ast.NotEq):
+            return e.left, e.comparators[0]
+        if isinstance(e, ast.Call) and unparse(e.func) == "bool" and len(
+                e.args) == 1:
+            return e.args[0], ast.Constant(0)
+        return None, None
+    okc = False
+    if set(got) == {"True", "False"}:
+        x1, k1 = nonzero_test(got["True"])
+        x0, k0 = nonzero_test(got["False"])
+        if x1 is not None and x0 is not None:
+            okc = _data_identity(lw, x1) and unparse(k1) == "0" and \
+                _data_identity(lw, x0) and lw.alg.equal(
+                    lw.bv(k0), BV([Seg(Lin.const(0), BITS, "ones")]))
+    else:
+        raise AnalysisError("Frame.__contains__: `item is True/False` "
+                            "branches not found")
+    last = cf.body[-1]
+    run.ob("R-FRAME-VIEW", FR + ".Frame.__contains__", okc and isinstance(
+        last, ast.Return) and unparse(last.value) == "False",
+        "True in f <=> some bit set; False in f <=> some bit clear (all "
+        "`width` lanes); anything else is not contained", where(mod, cf))
     # views do not write
-    for name in list(want) + ["__getitem__", "__contains__", "__add__",
-                              "__str__", "_readslice"]:
+    for name in ["as_integer", "as_byte_sequence", "pack", "pack_len",
+                 "__len__", "__eq__", "__ne__", "__getitem__",
+                 "__contains__", "__add__", "__str__", "_readslice"]:
         f2 = c.methods[name][1]
         w = [unparse(n) for n in ast.walk(f2) if isinstance(
             n, ast.Attribute) and isinstance(n.ctx, (ast.Store, ast.Del))]
         run.ob("R-FRAME-VIEW", "%s.Frame.%s#read-only" % (FR, name), not w,
                "%s modifies %s" % (name, w), where(mod, f2), trivial=True)
-
-
-def _exc_table(run, mod, c):
-    run.rule("R-FRAME-EXC", "guard -> exception class table == documented "
-             "table")
-    spec = json.load(open(os.path.join(VERIF, "spec",
-                                       "frame_exceptions.json")))
-
-    def raises_in(node):
-        out = {}
-        for n in ast.walk(node):
-            if isinstance(n, ast.If):
-                exc = [unparse(s.exc.func if isinstance(s.exc, ast.Call)
-                               else s.exc) for s in n.body if isinstance(
-                                   s, ast.Raise) and s.exc is not None]
-                if exc:
-                    out[unparse(n.test)] = exc[0]
-        return out
-    g = c.methods["__getitem__"][1]
-    s = c.methods["__setitem__"][1]
-    gi = raises_in(_branch(g, "int"))
-    si_ = raises_in(_branch(s, "int"))
-    ss = raises_in(_branch(s, "slice"))
-    final_g = [unparse(x) for x in g.body if isinstance(x, ast.Raise)]
-    # the trailing `raise TypeError` of __getitem__ and the else-branch of
-    # __setitem__
-    tg = ast.unparse(g).rstrip().endswith("raise TypeError")
-    ts = ast.unparse(s).rstrip().endswith("raise TypeError")
-    got = {
-        "__getitem__": {
-            "int out of range": gi.get("key < 0 or key >= self._bits"),
-            "other key type": "TypeError" if tg else None},
-        "__setitem__": {
-            "value not int": ss.get("not isinstance(value, int)"),
-            "value too big": ss.get("value.bit_length() > hi + 1 - lo"),
-            "value negative": ss.get("value < 0"),
-            "int out of range": si_.get("key < 0 or key >= self._bits"),
-            "other key type": "TypeError" if ts else None},
-    }
-    for meth, tab in got.items():
-        for what, exc in tab.items():
-            want = spec[meth][what]
-            if what == "value too big" and exc is None:
-                # another recognised fit form: take whatever exception the
-                # (lane-verified) fit guard raises
-                for k, v in ss.items():
-                    if "value" in k and k not in (
-                            "not isinstance(value, int)", "value < 0"):
-                        exc = v
-            run.ob("R-FRAME-EXC", "%s.Frame.%s#%s" % (FR, meth, what),
-                   exc == want, "%s: %s raises %s, documented %s" % (
-                       meth, what, exc, want), where(mod, c.node),
-                   sample={"rule": "R-FRAME-EXC", "method": meth,
-                           "case": what, "raises": exc}
-                   if what == "value too big" else None)
